@@ -292,7 +292,7 @@ impl Property for C19 {
         ]
     }
     fn plan(&self, tier: Tier) -> Plan {
-        Plan { workers: tier.pick(4, 16), cases_per_worker: tier.pick(7_500, 100_000), max_shrink_iters: 3000 }
+        Plan { workers: tier.pick(4, 16), cases_per_worker: tier.pick(25_000, 200_000), max_shrink_iters: 3000 }
     }
     fn strategy(&self, _tier: Tier) -> BoxedStrategy<Case> {
         prop_oneof![
